@@ -21,28 +21,39 @@ Proof.
   rewrite H1. cbn. f_equal. apply IH. exact H2.
 Qed.
 
-(* invariant: a file of the _api package belongs to an existing object *)
-Definition cw_inv (st : cw_store) : Prop :=
-  forall k, cw_kmem k (cs_files st) = true -> exists o, cw_find k st = Some o.
-
-Lemma cw_undo_fresh st k :
-  cw_inv st -> cw_find k st = None ->
-  {| cs_objs := cs_objs st; cs_items := cs_items st; cs_files := cw_kremove k (k :: cs_files st) |} = st.
+Lemma cw_fremove_notin k l : cw_fmem k l = false -> cw_fremove k l = l.
 Proof.
-  intros Hi Hf. destruct st as [o i f]. cbn [cs_objs cs_items cs_files].
-  assert (Hs : cw_kremove k (k :: f) = cw_kremove k f).
-  { unfold cw_kremove. cbn [filter]. rewrite cw_keq_refl. reflexivity. }
-  rewrite Hs, cw_kremove_notin; [reflexivity|].
-  destruct (cw_kmem k f) eqn:E; [|reflexivity].
-  destruct (Hi k E) as (x & Hx). congruence.
+  induction l as [|x l IH]; intros H; [reflexivity|]. cbn in *. apply orb_false_elim in H as [H1 H2].
+  rewrite H1. cbn. f_equal. apply IH. exact H2.
 Qed.
 
-(* failure => objects, items and files are exactly what they were *)
-Theorem cw_create_fail_unchanged st ty full nc o st' :
-  cw_inv st -> cw_create st ty full nc o = (st', CwrFail) -> st' = st.
+(* the regenerated fact: the duplicate pre-check asks the OBJECT registry (fails to check when the source says otherwise) *)
+Lemma cw_precheck_fact : cw_src_precheck_object = true.
+Proof. reflexivity. Qed.
+
+(* invariant: a file of the _api package belongs to an existing object *)
+Definition cw_inv (st : cw_store) : Prop :=
+  forall k, cw_fmem k (cs_files st) = true -> exists o, cw_find k st = Some o.
+
+Lemma cw_undo_fresh st k c :
+  cw_inv st -> cw_find k st = None ->
+  {| cs_objs := cs_objs st; cs_items := cs_items st; cs_files := cw_fremove k ((k, c) :: cw_fremove k (cs_files st)) |} = st.
 Proof.
-  intros Hi. unfold cw_create. destruct (cw_find (ty, full) st) eqn:Hf; [intros H; inversion H; reflexivity|].
-  pose proof (cw_undo_fresh st (ty, full) Hi Hf) as Hu.
+  intros Hi Hf. destruct st as [o i f]. cbn [cs_objs cs_items cs_files].
+  assert (Hn : cw_fmem k f = false).
+  { destruct (cw_fmem k f) eqn:E; [|reflexivity]. destruct (Hi k E) as (x & Hx). congruence. }
+  rewrite (cw_fremove_notin k f Hn).
+  assert (Hs : cw_fremove k ((k, c) :: f) = cw_fremove k f).
+  { unfold cw_fremove. cbn [filter fst]. rewrite cw_keq_refl. reflexivity. }
+  rewrite Hs, (cw_fremove_notin k f Hn). reflexivity.
+Qed.
+
+(* failure => objects, items and files - of EVERY object, names and contents - are exactly what they were *)
+Theorem cw_create_fail_unchanged_m st ty full nc c o st' :
+  cw_inv st -> cw_create_m true st ty full nc c o = (st', CwrFail) -> st' = st.
+Proof.
+  intros Hi. unfold cw_create_m. destruct (cw_find (ty, full) st) eqn:Hf; [intros H; inversion H; reflexivity|].
+  pose proof (cw_undo_fresh st (ty, full) c Hi Hf) as Hu.
   destruct o as [| | |eff deps]; cbn [cs_objs cs_items cs_files]; try (intros H; inversion H; subst; exact Hu).
   match goal with |- context [cw_find (ty, eff) ?s] => destruct (cw_find (ty, eff) s) end;
     [intros H; inversion H; subst; exact Hu|].
@@ -51,25 +62,44 @@ Proof.
   destruct (cw_beq eff full); intros H; inversion H.
 Qed.
 
-(* success under the requested name => an active runtime object with its file (and item), everything else as before *)
-Theorem cw_create_ok_complete st ty full nc eff deps st' :
-  cw_create st ty full nc (CwoOk eff deps) = (st', CwrOk) -> cw_beq eff full = true ->
+Theorem cw_create_fail_unchanged st ty full nc c o st' :
+  cw_inv st -> cw_create st ty full nc c o = (st', CwrFail) -> st' = st.
+Proof. unfold cw_create. rewrite cw_precheck_fact. apply cw_create_fail_unchanged_m. Qed.
+
+(* success under the requested name => an active runtime object with its file (and item), holding the generated
+   bytes; every other object, item and FILE as before *)
+Theorem cw_create_ok_complete_m st ty full nc c eff deps st' :
+  cw_inv st -> cw_create_m true st ty full nc c (CwoOk eff deps) = (st', CwrOk) -> cw_beq eff full = true ->
   cw_find (ty, full) st = None /\
   cw_flags_of st' (ty, full) =
     {| fl_obj := true; fl_active := true; fl_runtime := true;
        fl_item := (if nc then cw_kmem (ty, full) (cs_items st) else true); fl_file := true |} /\
   cs_objs st' = {| co_key := (ty, full); co_runtime := true; co_deps := deps |} :: cs_objs st /\
-  cs_files st' = (ty, full) :: cs_files st.
+  cs_files st' = ((ty, full), c) :: cs_files st.
 Proof.
-  unfold cw_create. destruct (cw_find (ty, full) st) eqn:Hf; [intros H; inversion H|].
+  intros Hi. unfold cw_create_m. destruct (cw_find (ty, full) st) eqn:Hf; [intros H; inversion H|].
+  assert (Hn : cw_fmem (ty, full) (cs_files st) = false).
+  { destruct (cw_fmem (ty, full) (cs_files st)) eqn:E; [|reflexivity]. destruct (Hi _ E) as (x & Hx). congruence. }
+  rewrite (cw_fremove_notin _ _ Hn).
   cbn [cs_objs cs_items cs_files].
   match goal with |- context [cw_find (ty, eff) ?s] => destruct (cw_find (ty, eff) s) end; [intros H; inversion H|].
   match goal with |- context [negb ?b] => destruct b end; cbn [negb]; [|intros H; inversion H].
   intros H Hb. rewrite Hb in H. apply cw_beq_eq in Hb. subst eff. inversion H; subst; clear H.
   split; [reflexivity|]. split; [|split; reflexivity].
   unfold cw_flags_of, cw_find. cbn [cs_objs cs_items cs_files find co_key co_runtime].
-  rewrite cw_keq_refl. destruct nc; cbn [cw_kmem existsb]; rewrite ?cw_keq_refl; reflexivity.
+  rewrite cw_keq_refl. unfold cw_fmem. cbn [existsb fst]. rewrite cw_keq_refl.
+  destruct nc; cbn [cw_kmem existsb]; rewrite ?cw_keq_refl; reflexivity.
 Qed.
+
+Theorem cw_create_ok_complete st ty full nc c eff deps st' :
+  cw_inv st -> cw_create st ty full nc c (CwoOk eff deps) = (st', CwrOk) -> cw_beq eff full = true ->
+  cw_find (ty, full) st = None /\
+  cw_flags_of st' (ty, full) =
+    {| fl_obj := true; fl_active := true; fl_runtime := true;
+       fl_item := (if nc then cw_kmem (ty, full) (cs_items st) else true); fl_file := true |} /\
+  cs_objs st' = {| co_key := (ty, full); co_runtime := true; co_deps := deps |} :: cs_objs st /\
+  cs_files st' = ((ty, full), c) :: cs_files st.
+Proof. unfold cw_create. rewrite cw_precheck_fact. apply cw_create_ok_complete_m. Qed.
 
 (* ---------------------------------------------------------------- delete *)
 Theorem cw_delete_refuses_static st k c o :
@@ -87,7 +117,7 @@ Qed.
 Theorem cw_delete_plain st k c o :
   cw_find k st = Some o -> co_runtime o = true -> cw_children k st = [] ->
   cw_delete st k c =
-    ({| cs_objs := cw_oremove k (cs_objs st); cs_items := cw_kremove k (cs_items st); cs_files := cw_kremove k (cs_files st) |}, CwrOk).
+    ({| cs_objs := cw_oremove k (cs_objs st); cs_items := cw_kremove k (cs_items st); cs_files := cw_fremove k (cs_files st) |}, CwrOk).
 Proof.
   intros Hf Hr Hc. unfold cw_delete. rewrite Hf, Hr, Hc. cbn [negb]. rewrite andb_false_r.
   cbn [cw_del_helper]. rewrite Hf, Hc, Hr. reflexivity.
@@ -101,17 +131,21 @@ Lemma cw_kmem_kremove k l : cw_kmem k (cw_kremove k l) = false.
 Proof.
   induction l as [|x l IH]; [reflexivity|]. cbn. destruct (cw_keq k x) eqn:E; cbn; [exact IH|]. rewrite E. exact IH.
 Qed.
+Lemma cw_fmem_fremove k l : cw_fmem k (cw_fremove k l) = false.
+Proof.
+  induction l as [|x l IH]; [reflexivity|]. cbn. destruct (cw_keq k (fst x)) eqn:E; cbn; [exact IH|]. rewrite E. exact IH.
+Qed.
 
 (* a successful delete leaves neither object nor item behind, and no file of a runtime object *)
 Theorem cw_delete_ok_gone st k c st' :
   cw_delete st k c = (st', CwrOk) ->
-  cw_find k st' = None /\ cw_kmem k (cs_items st') = false /\ cw_kmem k (cs_files st') = false.
+  cw_find k st' = None /\ cw_kmem k (cs_items st') = false /\ cw_fmem k (cs_files st') = false.
 Proof.
   unfold cw_delete. destruct (cw_find k st) as [o|] eqn:Hf; [|intros H; inversion H].
   destruct (co_runtime o) eqn:Hr; cbn [negb]; [|intros H; inversion H].
   destruct (negb c && negb match cw_children k st with [] => true | _ :: _ => false end); [intros H; inversion H|].
   cbn [cw_del_helper]. rewrite Hf, Hr. intros H. inversion H; subst; clear H.
-  unfold cw_find. cbn [cs_objs cs_items cs_files]. rewrite cw_find_oremove, !cw_kmem_kremove. auto.
+  unfold cw_find. cbn [cs_objs cs_items cs_files]. rewrite cw_find_oremove, cw_kmem_kremove, cw_fmem_fremove. auto.
 Qed.
 
 (* deleting never creates anything: every object afterwards was there before (cascade or not) *)
@@ -145,11 +179,11 @@ Proof.
   pose proof (find_none _ _ Hf o Ho) as Hn. cbn in Hn. rewrite Hk, cw_keq_refl in Hn. discriminate.
 Qed.
 
-Theorem cw_create_unique st ty full nc o st' r :
-  cw_unique st -> cw_create st ty full nc o = (st', r) -> cw_unique st'.
+Theorem cw_create_unique_m b st ty full nc c o st' r :
+  cw_unique st -> cw_create_m b st ty full nc c o = (st', r) -> cw_unique st'.
 Proof.
-  unfold cw_unique, cw_create. intros Hu.
-  destruct (cw_find (ty, full) st); [intros H; inversion H; subst; exact Hu|].
+  unfold cw_unique, cw_create_m. intros Hu.
+  match goal with |- context [if ?x then (st, CwrFail) else _] => destruct x end; [intros H; inversion H; subst; exact Hu|].
   destruct o as [| | |eff deps]; cbn [cs_objs cs_items cs_files]; try (intros H; inversion H; subst; exact Hu).
   match goal with |- context [cw_find (ty, eff) ?s] => destruct (cw_find (ty, eff) s) eqn:He end;
     [intros H; inversion H; subst; exact Hu|].
@@ -158,6 +192,9 @@ Proof.
   apply cw_find_none_notin in He. cbn [cs_objs] in He.
   destruct (cw_beq eff full); intros H; inversion H; subst; cbn [cs_objs map co_key]; constructor; assumption.
 Qed.
+Theorem cw_create_unique st ty full nc c o st' r :
+  cw_unique st -> cw_create st ty full nc c o = (st', r) -> cw_unique st'.
+Proof. apply cw_create_unique_m. Qed.
 
 Theorem cw_static_unique st k nc deps : cw_unique st -> cw_unique (cw_add_static st k nc deps).
 Proof.
@@ -190,42 +227,3 @@ Proof.
   destruct (negb c && _); intros H; apply (f_equal fst) in H; cbn [fst] in H; rewrite <- H; [exact Hu|apply cw_del_helper_unique; exact Hu].
 Qed.
 
-(* ---------------------------------------------------------------- the oracle accepts what the model does *)
-Definition cw_mk_cobs (st st' : cw_store) (k : cw_key) (r : cw_res) : cw_cobs :=
-  {| cb_ok := match r with CwrOk => true | _ => false end;
-     cb_pre := cw_flags_of st k; cb_post := cw_flags_of st' k;
-     cb_nobj_pre := N.of_nat (length (cs_objs st)); cb_nobj_post := N.of_nat (length (cs_objs st'));
-     cb_nfiles_pre := N.of_nat (length (cs_files st)); cb_nfiles_post := N.of_nat (length (cs_files st'));
-     cb_globals_same := true; cb_others_same := true; cb_rest_same := true |}.
-
-Lemma cw_flags_eqb_refl f : cw_flags_eqb f f = true.
-Proof. destruct f as [[] [] [] [] []]; reflexivity. Qed.
-
-(* on every create the model can perform - failure, or success under the requested name - the oracle
-   returns 0.  (Success under a different effective name is the recorded finding name-extra-parts.) *)
-Theorem cw_oracle_accepts_create st ty full nc o st' r :
-  cw_inv st -> cw_create st ty full nc o = (st', r) ->
-  (r = CwrFail \/ exists deps, o = CwoOk full deps) ->
-  (nc = true \/ cw_kmem (ty, full) (cs_items st) = false \/ True) ->
-  cw_orc_create nc (cw_mk_cobs st st' (ty, full) r) = 0.
-Proof.
-  intros Hi Hc Hcase _. destruct Hcase as [->|(deps & ->)].
-  - apply cw_create_fail_unchanged in Hc; [|assumption]. subst st'.
-    unfold cw_orc_create, cw_mk_cobs. cbn. rewrite cw_flags_eqb_refl, !N.eqb_refl. reflexivity.
-  - destruct r.
-    + destruct (cw_create_ok_complete st ty full nc full deps st' Hc (cw_beq_refl full)) as (Hpre & Hpost & Ho & Hfiles).
-      unfold cw_orc_create, cw_mk_cobs. cbn [cb_globals_same cb_others_same cb_rest_same cb_ok cb_pre cb_post
-        cb_nobj_pre cb_nobj_post cb_nfiles_pre cb_nfiles_post andb negb].
-      rewrite Hpost, Ho, Hfiles. cbn [fl_obj fl_active fl_runtime fl_file fl_item length andb].
-      unfold cw_flags_of. rewrite Hpre. cbn [fl_obj negb].
-      replace (N.of_nat (S (length (cs_objs st))) =? N.of_nat (length (cs_objs st)) + 1) with true by (symmetry; apply N.eqb_eq; lia).
-      replace (N.of_nat (S (length (cs_files st))) =? N.of_nat (length (cs_files st)) + 1) with true by (symmetry; apply N.eqb_eq; lia).
-      destruct nc; cbn; try reflexivity.
-    + apply cw_create_fail_unchanged in Hc; [|assumption]. subst st'.
-      unfold cw_orc_create, cw_mk_cobs. cbn. rewrite cw_flags_eqb_refl, !N.eqb_refl. reflexivity.
-    + exfalso. unfold cw_create in Hc. destruct (cw_find (ty, full) st); [inversion Hc|].
-      cbn [cs_objs cs_items cs_files] in Hc.
-      match type of Hc with context [cw_find (ty, full) ?s] => destruct (cw_find (ty, full) s) end; [inversion Hc|].
-      match type of Hc with context [negb ?b] => destruct b end; cbn [negb] in Hc; [|inversion Hc].
-      destruct (cw_beq full full); inversion Hc.
-Qed.
